@@ -168,8 +168,10 @@ static inline int spec_seed_name(const char* s)
           && s[7] == 's' && s[8] == 'e' && s[9] == 'e' && s[10] == 'd';
 }
 
-struct Host : SoPlexBase<R>
+/* single one-level inheritance only (H : Host); the enumerations are reached through qualified names */
+struct Host
 {
+   typedef SoPlexBase<R>::BoolParam BoolParam; typedef SoPlexBase<R>::IntParam IntParam; typedef SoPlexBase<R>::RealParam RealParam;
    Settings* _currentSettings;
    int spxout;
 
